@@ -1,3 +1,78 @@
-(* C01 - property theorems (being extended: see DESIGN.md 6.C01). *)
-From Coq Require Import List NArith ZArith Bool.
-From HV Require Import Base.BSet Gen.Tables Text.TypeOrder Topo.Dump Topo.WFCheck.
+(* C01 - property theorems only (DESIGN.md 6.C01).
+   Model: Topo/Obj.v (hwloc_connect_levels, special lists), Topo/WFCheck.v
+   (executable statement of well-formedness).  Proofs: Topo/LevelsProofs.v. *)
+From Coq Require Import List NArith ZArith Bool Permutation.
+From HV Require Import Base.BSet Gen.Tables Text.TypeOrder Topo.Dump Topo.WFCheck Topo.Obj Topo.LevelsProofs.
+Import ListNotations.
+Local Open Scope N_scope.
+
+(* The level-building loop of hwloc_connect_levels terminates on every tree
+   (the C loop has no written termination argument): fuel = number of objects. *)
+Theorem levels_terminate : forall root,
+  types_ok (nflatten root) -> exists ls, levels_of root = Some ls.
+Proof. exact levels_of_terminates. Qed.
+Print Assumptions levels_terminate.
+
+(* Every object reachable through normal children is in exactly one level. *)
+Theorem levels_partition : forall root ls,
+  levels_of root = Some ls -> Permutation (concat ls) (nflatten root).
+Proof. exact levels_of_partition. Qed.
+Print Assumptions levels_partition.
+
+(* Every level is non-empty and all its objects have the same type (and group kind). *)
+Theorem levels_homogeneous : forall root ls,
+  types_ok (nflatten root) -> levels_of root = Some ls -> Forall homogeneous ls.
+Proof. exact levels_of_homogeneous. Qed.
+Print Assumptions levels_homogeneous.
+
+(* A normal child is always strictly deeper than its parent. *)
+Theorem levels_child_deeper : forall root ls,
+  levels_of root = Some ls ->
+  forall k lvl o c, nth_error ls k = Some lvl -> In o lvl -> In c (onch o) ->
+  exists k' lvl', (k < k')%nat /\ nth_error ls k' = Some lvl' /\ In c lvl'.
+Proof. exact levels_of_child_deeper. Qed.
+Print Assumptions levels_child_deeper.
+
+(* PUs form the deepest normal level, and that level holds PUs only. *)
+Theorem levels_pu_last : forall root ls,
+  types_ok (nflatten root) -> pus_are_leaves (nflatten root) -> otype root <> HWLOC_OBJ_PU ->
+  levels_of root = Some ls ->
+  forall k lvl o, nth_error ls k = Some lvl -> In o lvl -> otype o = HWLOC_OBJ_PU ->
+  S k = List.length ls /\ forall o', In o' lvl -> otype o' = HWLOC_OBJ_PU.
+Proof. exact levels_of_pu_last. Qed.
+Print Assumptions levels_pu_last.
+
+(* hwloc_type_cmp()==EQUAL is an equivalence on valid types: needed for "all
+   objects of a level have the same type" to be meaningful *)
+Theorem type_cmp_equal_equivalence : forall a b c,
+  otype a < HWLOC_OBJ_TYPE_MAX -> otype b < HWLOC_OBJ_TYPE_MAX -> otype c < HWLOC_OBJ_TYPE_MAX ->
+  type_cmp_equal a a = true /\
+  (type_cmp_equal a b = true -> type_cmp_equal b a = true) /\
+  (type_cmp_equal a b = true -> type_cmp_equal b c = true -> type_cmp_equal a c = true).
+Proof.
+  intros a b c Ha Hb Hc. split; [apply type_cmp_equal_refl, Ha|]. split.
+  - apply type_cmp_equal_sym; assumption.
+  - apply type_cmp_equal_trans; assumption.
+Qed.
+Print Assumptions type_cmp_equal_equivalence.
+
+(* Non-vacuity: an asymmetric tree (Machine > {Package > Core > 2 PU ; Core > PU})
+   meets the hypotheses; its levels are Machine | Package | Core,Core | PU,PU,PU. *)
+Definition ex_d (id ty : N) : dobj :=
+  mkDobj id ty 0 id (Some id) PNull PNull PNull PNull PNull PNull PNull 0 0 0 0 0 0 None [] [] [] []
+         None None None None 0 0 (-1) (-1) (-1) (-1) (-1) (-1) (-1).
+Definition ex_leaf id := Obj (ex_d id HWLOC_OBJ_PU) [] [] [] [].
+Definition ex_tree : obj :=
+  Obj (ex_d 0 HWLOC_OBJ_MACHINE)
+    [Obj (ex_d 1 HWLOC_OBJ_PACKAGE) [Obj (ex_d 2 HWLOC_OBJ_CORE) [ex_leaf 3; ex_leaf 4] [] [] []] [] [] [];
+     Obj (ex_d 5 HWLOC_OBJ_CORE) [ex_leaf 6] [] [] []] [] [] [].
+Example levels_example :
+  types_ok (nflatten ex_tree) /\ pus_are_leaves (nflatten ex_tree) /\ otype ex_tree <> HWLOC_OBJ_PU /\
+  option_map (map (map oid)) (levels_of ex_tree) = Some [[0]; [1]; [2; 5]; [3; 4; 6]].
+Proof.
+  split; [|split; [|split]].
+  - repeat constructor.
+  - repeat constructor; intros H; try reflexivity; vm_compute in H; discriminate.
+  - vm_compute. discriminate.
+  - vm_compute. reflexivity.
+Qed.
